@@ -86,11 +86,16 @@ class BufferedPipe:
 
         :param data: the data to add, as a ``str`` or ``bytes``
         """
+        data = b(data)
+        if len(data) == 0:
+            # nothing became readable (a peer may send empty data messages):
+            # don't signal the event for a read that would still block
+            return
         self._lock.acquire()
         try:
             if self._event is not None:
                 self._event.set()
-            self._buffer_frombytes(b(data))
+            self._buffer_frombytes(data)
             self._cv.notify_all()
         finally:
             self._lock.release()
